@@ -472,8 +472,9 @@ func (w *World) Exec(op string) error {
 		if err != nil && strings.Contains(err.Error(), "invalid DLEQ") {
 			// the receiving wallet says the token's DLEQ proofs are invalid: are they, under the keys the mint publishes
 			// for each proof's own keyset?
+			// judged on the proofs as the sending wallet handed them out (building the token must not change them)
 			allValid := true
-			for _, p := range tok.Proofs() {
+			for _, p := range t.Proofs {
 				if p.DLEQ == nil {
 					continue
 				}
@@ -856,6 +857,35 @@ func (w *World) auditFees() {
 		// the Lightning model charges the whole fee reserve; internal settlements have reserve 0
 		if in > resp.Amount+resp.FeeReserve+fee+change {
 			w.viol("C17", "melt-gives-up-more-than-amount-and-fees", "%s melted %d inputs worth %d at mint %s for an invoice of %d + Lightning fee %d + input fee %d and got change %d: %d sat are lost", ex.Wallet, len(req.Inputs), in, name, resp.Amount, resp.FeeReserve, fee, change, in-resp.Amount-resp.FeeReserve-fee-change)
+		}
+	}
+}
+
+// CheckStoredDLEQ (C10): a proof a wallet holds with a DLEQ proof attached must be one a third party can verify: e, s AND the
+// blinding factor r present, valid under the key the mint publishes for the proof's keyset and amount. Proofs without any
+// DLEQ (restored wallets) are fine.
+func (w *World) CheckStoredDLEQ() {
+	for _, ww := range w.Wallets {
+		if ww.W == nil {
+			continue
+		}
+		for _, p := range ww.DB.Inner.GetProofs() {
+			if p.DLEQ == nil {
+				continue
+			}
+			if p.DLEQ.R == "" {
+				w.viol("C10", "stored-proof-dleq-without-r", "%s holds a spendable proof of %d whose DLEQ proof has e and s but no blinding factor r: no third party can verify it", ww.Name, p.Amount)
+				continue
+			}
+			ok := false
+			for _, n := range w.mintNames() {
+				if K := w.publishedKey(n, p.Id, p.Amount); K != nil && nut12.VerifyProofDLEQ(p, K) {
+					ok = true
+				}
+			}
+			if !ok {
+				w.viol("C10", "stored-proof-dleq-invalid", "%s holds a spendable proof of %d whose DLEQ proof does not verify under the published key of its keyset", ww.Name, p.Amount)
+			}
 		}
 	}
 }
